@@ -191,6 +191,18 @@ def text_oracles(ctx, text, kinds, headers, rows, opts, nullvalue, dcontext=None
                             if '.' in l[starts[j]:starts[j] + len(segs[j])]}
                     if len(dots) > 1:
                         problems.append('decimal points at offsets %r in column %d' % (sorted(dots), j))
+            # amounts of one column are aligned on the decimal point (the units digit when a currency shows no fraction)
+            import re as _re
+            for j, kind in enumerate(kinds):
+                if kind == 'amount':
+                    offs = set()
+                    for l in body[:len(rows)]:
+                        cell = l[starts[j]:starts[j] + len(segs[j])]
+                        m = _re.search(r'-?[0-9][0-9,]*', cell)
+                        if m and not cell.strip() == nullvalue.strip():
+                            offs.add(m.end())
+                    if len(offs) > 1:
+                        problems.append('amounts of column %d have their decimal points at offsets %r' % (j, sorted(offs)))
             # header centred
             for j, h in enumerate(headers):
                 cell = lines[0][starts[j]:starts[j] + len(segs[j])]
